@@ -354,5 +354,6 @@ REQUIRED_FIRED = ["api.ok", "api.raise_before", "api.raise_after_partial", "cbc.
                   "cbc.no_sol_file", "cbc.infeasible", "cbc.integer_infeasible", "cbc.unbounded",
                   "cbc.stopped_no_incumbent", "cbc.unknown_word", "highs.ok", "highs.exit_minus1",
                   "highs.infeasible", "highs.unbounded", "highs.timelimit_no_solution",
-                  "highs.sol_unreadable", "highs.vanishes_after_lookup", "real-cbc.ok"] + [
+                  "highs.sol_unreadable", "highs.vanishes_after_lookup", "real-cbc.ok", "api.ok_zero_noise",
+                  "cbc.ok_zero_noise", "highs.ok_zero_noise"] + [
     "api.%s.%s" % (k, a) for k in API_KINDS if k.startswith("status_") or k == "raise_after_optimal" for a in API_ASSIGN]
